@@ -1,0 +1,36 @@
+//go:build verif
+
+/*
+ Licensed to the Apache Software Foundation (ASF) under one
+ or more contributor license agreements.  See the NOTICE file
+ distributed with this work for additional information
+ regarding copyright ownership.  The ASF licenses this file
+ to you under the Apache License, Version 2.0 (the
+ "License"); you may not use this file except in compliance
+ with the License.  You may obtain a copy of the License at
+
+     http://www.apache.org/licenses/LICENSE-2.0
+
+ Unless required by applicable law or agreed to in writing, software
+ distributed under the License is distributed on an "AS IS" BASIS,
+ WITHOUT WARRANTIES OR CONDITIONS OF ANY KIND, either express or implied.
+ See the License for the specific language governing permissions and
+ limitations under the License.
+*/
+
+package webservice
+
+import (
+	"net/http"
+
+	"github.com/apache/yunikorn-core/pkg/metrics/history"
+	"github.com/apache/yunikorn-core/pkg/scheduler"
+)
+
+// Verification hook (build tag "verif" only): the REST router of the web service bound to a given
+// cluster context, without opening a port. Nothing here changes behaviour.
+func VerifRouter(context *scheduler.ClusterContext) http.Handler {
+	schedulerContext.Store(context)
+	imHistory = history.NewInternalMetricsHistory(8)
+	return newRouter()
+}
